@@ -70,7 +70,7 @@ def r_filter(prog, R):
                 used = False
             elif h != "ttl":
                 # a separate variable: it must be compared against ttl and assigned to it
-                okc = any(e2["k"] == "asg" and is_var(strip(e2["e"]["l"]), "ttl") and is_var(strip(e2["e"].get("r")), h) for _, _, e2 in f.elements())
+                okc = any(e2["k"] == "asg" and is_var(strip(e2["e"]["l"]), "ttl") and h in [v["n"] for v in vars_in(e2["e"].get("r"))] for _, _, e2 in f.elements())
                 used = used and okc
         if t is not None:
             r.viol(k, f.name, f.loc(eel), "a response can be stored with a lifetime that never looked at the TTLs of its own records (e.g. an NXDOMAIN whose lifetime comes from the SOA alone although it carries a short-lived CNAME): it is replayed after those records have expired", trail=trail_lines(f, t))
